@@ -249,6 +249,13 @@ impl<K, V> EntryPtr<K, V> {
     }
 }
 
+#[cfg(feature = "verif-hooks")]
+impl<K, V> EntryPtr<K, V> {
+    pub(crate) fn verif_raw(&self) -> *mut Entry<K, V> {
+        self.ptr
+    }
+}
+
 #[cfg(test)]
 mod tests {
 
